@@ -13,6 +13,21 @@ Theorem c09_refines_list : forall max ops s xs,
   Clean s xs -> exists s' xs', run max s ops = Some s' /\ Clean s' xs' /\ spec_run xs ops xs'.
 Proof. intros max ops. exact (run_refines max ops). Qed.
 
+(* No history invents, reorders or corrupts an item: after any appends,
+   truncations, re-opens and crashes the list is (newest first) items this
+   history appended in front of an oldest part of the initial list, unchanged
+   and in order; the machine runs every such history and ends clean on it. *)
+Theorem c09_spec_run_shape : forall xs ops xs',
+  spec_run xs ops xs' ->
+  exists new m, xs' = new ++ skipn m xs /\ (forall x, In x new -> In (OAppend x) ops).
+Proof. exact spec_run_shape. Qed.
+
+Theorem c09_run_keeps_items : forall max ops s xs,
+  Clean s xs ->
+  exists s' new m, run max s ops = Some s' /\ Clean s' (new ++ skipn m xs) /\
+                   (forall x, In x new -> In (OAppend x) ops).
+Proof. exact run_keeps_items. Qed.
+
 Theorem c09_fresh_clean : Clean fresh [].
 Proof. exact fresh_clean. Qed.
 
@@ -104,6 +119,8 @@ Theorem c09_cursor_fixed_on_witness :
 Proof. exact cursor_fixed_on_witness. Qed.
 
 Redirect "out/C09.c09_refines_list" Print Assumptions c09_refines_list.
+Redirect "out/C09.c09_spec_run_shape" Print Assumptions c09_spec_run_shape.
+Redirect "out/C09.c09_run_keeps_items" Print Assumptions c09_run_keeps_items.
 Redirect "out/C09.c09_fresh_clean" Print Assumptions c09_fresh_clean.
 Redirect "out/C09.c09_clean_answers" Print Assumptions c09_clean_answers.
 Redirect "out/C09.c09_repair_prefix" Print Assumptions c09_repair_prefix.
